@@ -58,7 +58,7 @@ def run(st, drv, items):
         st.evaluations += 1
         script = 'schema N1 %s\n%s' % (SCH.spec(), c.script())
         if r.status in ('crash', 'hang'):
-            st.violation('%s:%s' % (r.status, engine.sanitizer_summary(r.info)), script, '', r.info[-1500:])
+            st.violation('%s:%s' % (r.status, engine.sanitizer_summary(r.info)), script, '', engine.excerpt(r.info))
             continue
         # split the answer into one group per conversion: [diag*] r <op> <rc> ; r get <v>
         groups, cur = [], []
